@@ -6,6 +6,7 @@ func init() {
 		Harness: []string{"c01_chain.go", "c16_keyid.go", "authz_gen.go", "c04_authz.go", "authz_rel.go", "c08_hist.go"},
 		Entries: []EntrySpec{
 			{Pkg: "biscuit", Func: "VerifC08Siblings", Quick: p(), Thorough: p(), Covers: []string{"done", "two-children"}},
+			{Pkg: "biscuit", Func: "VerifC08Envelope", Quick: p("maxblocks", 4), Thorough: p("maxblocks", 6), Covers: []string{"done"}},
 		},
 		Assumptions: append([]string{
 			"histories: one parent token (0 or 1 block, fresh or reloaded from bytes) and two scripts run in EVERY interleaving: script A = create block builder, add fact, build block, append; script B = the same, or seal, reload, get-block-id, authorize, print",
